@@ -9,7 +9,7 @@ import time
 
 from .common import SPEC, scratch
 
-MODULES = ["IdxProofs", "HelpersProofs", "DWT1Proofs", "SWTProofs", "DTCWT1Proofs"]
+MODULES = ["IdxProofs", "HelpersProofs", "DWT1Proofs", "SWTProofs", "DTCWT1Proofs", "ScatProofs"]
 
 
 def prove(module="IdxProofs", stretch=1, timeout=1500, mutate=None):
@@ -47,7 +47,8 @@ def prove(module="IdxProofs", stretch=1, timeout=1500, mutate=None):
                 tail=" | ".join(lines[:6])[:600])
 
 
-THEOREMS_D = ["PadAmounts", "AnalysisLenAll", "AnalysisSrcAll", "SynthesisAll", "ModEqZero", "Half"]
+THEOREMS_D = ["PadAmounts", "AnalysisLenAll", "AnalysisSrcAll", "SynthesisAll", "RoundTripLen", "ModEqZero", "Half"]
+THEOREMS_C = ["DivUnique", "Size1All", "Ext8All", "ChanViewsAll"]
 THEOREMS_S = ["SwtPads", "SwtFullResolution", "SwtSrcAll", "ModAdd", "SwtShiftEquivariant"]
 THEOREMS_T = ["ColdCountAll", "ColdPosAll", "ColdSrcAll", "IfiltPosAll"]
 THEOREMS_H = ["PadMatchesPywtAll", "PadInRangeAll", "RollPlainIsIdx", "RollPlainIsCyclic", "ModeCodesRoundTrip", "PrepContractHolds"]
@@ -61,7 +62,7 @@ def attach(rep, module="IdxProofs"):
     if not r["ok"]:
         r = prove(module, stretch=4)
     th = {"IdxProofs": THEOREMS, "HelpersProofs": THEOREMS_H, "DWT1Proofs": THEOREMS_D, "SWTProofs": THEOREMS_S,
-          "DTCWT1Proofs": THEOREMS_T}[module]
+          "DTCWT1Proofs": THEOREMS_T, "ScatProofs": THEOREMS_C}[module]
     rep.extra.setdefault("tlaps", []).append(dict(r, theorems=th))
     if r["ok"]:
         rep.count("tlaps_obligations_proved", r["proved"])
